@@ -59,19 +59,21 @@ REQUIRED_FEATURES = ["ref:ll1-as-written", "ref:not-ll1-as-written", "impl:table
                      "grammar:nullable", "grammar:nullable-symbol-after-non-terminal",
                      "grammar:epsilon-alternative-before-token-alternative", "family:follow",
                      "order:start-symbol-last", "grammar:follow-dependency-chain",
-                     "family:wide", "grammar:more-than-5-alternatives-with-one-first-symbol"]
+                     "family:wide", "grammar:more-than-5-alternatives-with-one-first-symbol",
+                     "family:diverge", "prefix-family:non-monotone-divergence"]
 
 _SPACES = {
     # (kind, params..., input length, shards)
     "quick": [("sized", "EA", "ab", 2, 2, 5, 4, 16), ("sized", "EAB", "a", 2, 3, 6, 4, 48),
               ("follow", "xyb", 3, True, True, False, 3, 160, False),
-              ("wide", "pqzcdefgh", 0, 0, 0, 0, 3, 8)],
+              ("wide", "pqzcdefgh", 0, 0, 0, 0, 3, 8), ("diverge", "pabcdxy", 0, 0, 0, 0, 3, 8)],
     "thorough": [("sized", "EA", "ab", 3, 3, 6, 5, 32), ("sized", "EA", "ab", 3, 3, 7, 4, 160),
                  ("sized", "EAB", "a", 2, 3, 6, 5, 64), ("sized", "EAB", "ab", 2, 2, 5, 4, 32),
                  ("follow", "xyb", 3, False, True, False, 4, 400, True),
                  ("follow", "xy", 3, False, False, True, 4, 120, True),
                  ("follow2", "xy", 0, 0, 0, 0, 4, 64),
-                 ("prefix", "ab", True, 4, 0, 0, 5, 64), ("wide", "pqzcdefgh", 0, 0, 0, 0, 4, 48)],
+                 ("prefix", "ab", True, 4, 0, 0, 5, 64), ("wide", "pqzcdefgh", 0, 0, 0, 0, 4, 48),
+                 ("diverge", "pabcdxy", 0, 0, 0, 0, 4, 24)],
 }
 # spaces explored in both insertion orders of the productions dict
 _BOTH_ORDERS = ("sized", "follow2")
@@ -94,6 +96,9 @@ def _space_gen(sp, k, K):
     if kind == "wide":
         cfg = G.letters_cfg(sp[1])
         return cfg, sp[6], (g for j, g in enumerate(G.family_wide(cfg.terms)) if j % K == k)
+    if kind == "diverge":
+        cfg = G.letters_cfg(sp[1])
+        return cfg, sp[6], (g for j, g in enumerate(G.family_diverge(cfg.terms)) if j % K == k)
     if kind == "prefix":
         cfg = G.letters_cfg(sp[1])
         gen = (g for j, g in enumerate(G.family_prefix(cfg.terms, ("E", "A"), full=sp[2], min_group=sp[3]))
@@ -118,6 +123,10 @@ def bounds(tier):
                         "one_representative_per_terminal_renaming": canonical,
                         "rich_symbol_in_own_alternatives_behind_terminal": self_ref,
                         "grammars": "counted at run time (feature family:follow)", "input_len_max": L})
+        elif sp[0] == "diverge":
+            out.append({"space": "non-monotone-divergence family (three alternatives with one first symbol, "
+                                 "all six orders) under obligation (b)", "terminals": list(sp[1]),
+                        "grammars": sum(1 for _ in G.family_diverge(tuple(sp[1]))), "input_len_max": sp[6]})
         elif sp[0] == "wide":
             out.append({"space": "wide-group family (4-7 alternatives with one prefix and distinct next symbols)",
                         "terminals": list(sp[1]), "grammars": sum(1 for _ in G.family_wide(tuple(sp[1]))),
@@ -327,6 +336,10 @@ def run_shard(shard, tier, seed, acc):
             feats, nt, out, n_cmp = check_grammar(cfg, "E", prods, L, inputs, acc)
             if rev:
                 feats.append("order:start-symbol-last")
+            if sp[0] in ("diverge", "prefix") and G.non_monotone_divergence(dict(prods)):
+                feats.append("prefix-family:non-monotone-divergence")
+                if "c" in out:
+                    feats.append("prefix-family:non-monotone-divergence:conflict-free")
             acc.case(nontrivial=nt, features=feats + [fam], outcome=out, traces=n_cmp)
             n += 1
             if nt and n % 101 == 0:
